@@ -430,3 +430,9 @@ package route
 //@ contract route.getDatasetFromRequest props C19
 //@   requires req != nil
 //@   ensures[a-dataset-written-with-PathEscape-is-read-back-unchanged] forall d string :: d != "" && mux.Vars(req)["datasetName"] == url.PathEscape(d) && url.PathEscape(d) != "" ==> result0 == d && result1 == nil
+
+// ---- C23 (gRPC): husky's AsGRPCError turns an OTLPError into status.Error(GRPCStatusCode, ...), and status.Error
+// returns nil - success - for codes.OK, the zero value. An OTLPError that code under contract for C23 hands on as
+// an `error` must therefore carry a gRPC code (the HTTP handlers pass OTLPError by value to
+// handleOTLPFailureResponse, which reads the HTTP status: those are not conversions to error).
+//@ boxednonzero github.com/honeycombio/husky/otlp.OTLPError.GRPCStatusCode props C23
